@@ -303,6 +303,64 @@ theorem C18_cache_cleared_at_most_once (o : Opts) (l : List Bool) (s : St) (r : 
     rw [← hz] at this
     omega
 
+/-- **A call on a used object behaves like a call on a fresh one**: `self.__results` survives
+    from an earlier `optimize()` on the same object, but a later call does not depend on it — same
+    thetas, increments, outcomes and seeds at every solve (the whole log), same return value; the
+    stored results afterwards are this call's last accepted ones if it accepted any.  (The stored
+    results are only read when `theta > theta_start`, and then this call has already stored its own.) -/
+theorem C18_call_independent_of_stored_results (o : Opts) (prev : Option Rat) (l : List Bool)
+    (hd : 0 < o.delta0) :
+    (optimizeFrom o prev l = none ↔ optimize o l = none) ∧
+    ∀ s r, optimize o l = some (s, r) →
+      ∃ s2, optimizeFrom o prev l = some (s2, r) ∧ s2.solves = s.solves ∧ s2.theta = s.theta ∧
+        s2.delta = s.delta ∧ s2.acc = (match s.acc with | some a => some a | none => prev) := by
+  constructor
+  · unfold optimizeFrom optimizeFromWith optimize optimizeWith
+    split <;> simp
+  · intro s r h
+    obtain ⟨h1, hrun⟩ := optimize_some h
+    have hsim0 : Sim prev (init o) (initFrom o prev) := ⟨rfl, rfl, rfl, rfl⟩
+    obtain ⟨hr, hsim⟩ := run_sim o prev l (init o) (initFrom o prev) (inv_init o h1 hd) hsim0
+    rw [hrun] at hr hsim
+    refine ⟨(run step o (initFrom o prev) l).1, ?_, hsim.solves, hsim.theta, hsim.delta, hsim.acc⟩
+    unfold optimizeFrom optimizeFromWith
+    rw [if_pos h1]
+    simp only at hr
+    rw [← hr]
+
+/-- **Runs of a sequence are independent**: the i-th `optimize()` call of any sequence of calls on
+    one object (options and outcomes per call) returns what a single call on a fresh object
+    returns, with the same log; in particular every clause above holds for every call: theta
+    stays in `[theta_start, 1]`, and a failing first solve ends that call with `False` after that
+    single solve, whatever earlier calls left behind. -/
+theorem C18_runs_independent (runs : List (Opts × List Bool)) (i : Nat) (hi : i < runs.length)
+    (hd : 0 < runs[i].1.delta0) :
+    ((optimizeSeq runs)[i]'(by unfold optimizeSeq; rw [seqFrom_length]; exact hi) = none
+        ↔ optimize runs[i].1 runs[i].2 = none) ∧
+    ∀ s r, optimize runs[i].1 runs[i].2 = some (s, r) →
+      ∃ s2, (optimizeSeq runs)[i]'(by unfold optimizeSeq; rw [seqFrom_length]; exact hi) = some (s2, r) ∧
+        s2.solves = s.solves ∧ s2.theta = s.theta ∧ s2.delta = s.delta := by
+  obtain ⟨pv, h⟩ := seqFrom_get step runs none i hi
+  unfold optimizeSeq
+  rw [h]
+  obtain ⟨h1, h2⟩ := C18_call_independent_of_stored_results runs[i].1 pv runs[i].2 hd
+  refine ⟨h1, ?_⟩
+  intro s r hs
+  obtain ⟨s2, e1, e2, e3, e4, _⟩ := h2 s r hs
+  exact ⟨s2, e1, e2, e3, e4⟩
+
+/-- **Witness for the seeded variant c18h** (first-solve failure detected by "no results stored
+    yet"): correct on a fresh object, but in a second call whose first solve fails the loop goes on
+    below `theta_start` (here to theta = -1/2) and can even return success. -/
+theorem C18_stored_results_variant_witness :
+    ((seqFrom stepByResults none [(⟨0, 1, 1/100⟩, [true, true]), (⟨0, 1, 1/100⟩, [false, true, true, true, true])]).map
+      (fun x => x.map (fun y => (y.2, y.1.solves.reverse.map (·.theta)))))
+      = [some (some true, [0, 1]), some (some true, [0, -1/2, 0, 1/2, 1])] ∧
+    ((optimizeSeq [(⟨0, 1, 1/100⟩, [true, true]), (⟨0, 1, 1/100⟩, [false, true, true, true, true])]).map
+      (fun x => x.map (fun y => (y.2, y.1.solves.reverse.map (·.theta)))))
+      = [some (some true, [0, 1]), some (some false, [0])] := by
+  constructor <;> decide +kernel
+
 /-- **Legacy overshoot witness (finding F3)**: the loop body before commit e603867 returns
     success after a single solve at theta = 1/2 for `theta_start = 1/2` (the increment 1 carries
     theta beyond 1 and the `while` test ends the loop with `success = True`). -/
